@@ -428,6 +428,10 @@ def scripted_histories(M):
         ((two + [('g', 'AND', ('a', 'b')), ('h', 'OR', ('g', 'a')), ('k', 'XOR', ('g', 'b'))], ('g', 'h', 'k'), ()),
          [('make_block', ('B', ['g'], ['g', 'h']), {}, "make_block('B', ['g'], ['g', 'h'])"), ('remove_gate', ('h',), {}, "remove_gate('h')"), ('__copy__', (), {}, 'copy.copy(circuit)'),
           ('rename_gate', ('g', 'g2'), {}, "rename_gate('g', 'g2')"), ('__copy__', (), {}, 'copy.copy(circuit)')]),
+        # a block whose constant member is also read from outside the block is removed / cut out again
+        ((two + [('k', 'ALWAYS_TRUE', ()), ('g', 'AND', ('a', 'k')), ('h', 'OR', ('b', 'k'))], ('g', 'h'), ()),
+         [('make_block', ('B', ['k', 'g'], ['g']), {}, "make_block('B', ['k', 'g'], ['g'])"), ('remove_block', ('B',), {}, "remove_block('B')"),
+          ('make_block_from_slice', ('S', ['a'], ['g']), {}, "make_block_from_slice('S', ['a'], ['g'])"), ('remove_block', ('S',), {}, "remove_block('S')")]),
         # inputs re-ordered and fixed, an input renamed
         ((two + [('c', 'INPUT', ()), ('g', 'GT', ('a', 'b')), ('h', 'XOR', ('g', 'c'))], ('h', 'a'), ()),
          [('order_inputs', (['c', 'a'],), {}, "order_inputs(['c', 'a'])"), ('rename_gate', ('a', 'z'), {}, "rename_gate('a', 'z')"), ('replace_inputs', (['c'], []), {}, "replace_inputs(['c'], [])"),
